@@ -130,6 +130,87 @@ func evalAdd(r *ev.Run, base *big.Int, n uint64, p int) {
 	r.Sample(class, c)
 }
 
+// aliasing: the functions are pure - the result depends only on the argument VALUES. Every
+// ordered pair of base patterns is pushed through ONE reused 16-byte buffer (first base, call,
+// overwrite with the second base, call): the second results must equal those for a fresh
+// slice. (Whether a result may share memory with an argument is not the property's business:
+// AddPrefixes(ip, 0, p) returns its argument.)
+func aliasing(r *ev.Run) {
+	pats := patterns()
+	for _, p := range []int{0, 1, 31, 32, 63, 64, 65, 96, 127, 128} {
+		size := new(big.Int).Lsh(one, uint(128-p))
+		for _, a := range pats {
+			for _, b := range pats {
+				ba, bb := maskTo(a, p), maskTo(b, p)
+				if ba.Cmp(bb) == 0 {
+					continue
+				}
+				buf := make(net.IP, 16)
+				xbuf := make(net.IP, 16)
+				for _, n := range []uint64{0, 1, 5} {
+					c := Case{Fn: "aliasing", Base: hex.EncodeToString(toIP(ba)), X: hex.EncodeToString(toIP(bb)), N: fmt.Sprint(n), P: p}
+					// first use of the buffers
+					copy(buf, toIP(ba))
+					xa := new(big.Int).Add(ba, new(big.Int).Mul(new(big.Int).SetUint64(n), size))
+					if xa.Cmp(two128) >= 0 {
+						xa = ba
+					}
+					copy(xbuf, toIP(xa))
+					// (three call orders, so that whichever function looks at the buffer first
+					// and last is covered)
+					switch (int(n) + p) % 3 {
+					case 0:
+						allocators.AddPrefixes(buf, n, uint64(p))
+					case 1:
+						allocators.Offset(xbuf, buf, p)
+						allocators.AddPrefixes(buf, n, uint64(p))
+					default:
+						allocators.AddPrefixes(buf, n, uint64(p))
+						allocators.Offset(xbuf, buf, p)
+						allocators.Offset(buf, xbuf, p)
+					}
+					// same memory, other values
+					copy(buf, toIP(bb))
+					xb := new(big.Int).Add(bb, new(big.Int).Mul(new(big.Int).SetUint64(n), size))
+					if xb.Cmp(two128) >= 0 {
+						xb = bb
+					}
+					copy(xbuf, toIP(xb))
+					got, err := allocators.AddPrefixes(buf, n, uint64(p))
+					fresh, ferr := allocators.AddPrefixes(toIP(bb), n, uint64(p))
+					// against the reference as well: a stale cache answers the fresh slice too
+					wantAdd := new(big.Int).Add(bb, new(big.Int).Mul(new(big.Int).SetUint64(n), size))
+					if wantAdd.Cmp(two128) < 0 && (err != nil || fromIP(got).Cmp(wantAdd) != 0) {
+						r.Violate("C20/aliasing/add-depends-on-history", fmt.Sprintf("AddPrefixes(%s,%d,%d) after the same buffer held %s = %v,%v; want %s", toIP(bb), n, p, toIP(ba), got, err, toIP(wantAdd)), c)
+					} else if wantAdd.Cmp(two128) >= 0 && err == nil {
+						r.Violate("C20/aliasing/add-depends-on-history", fmt.Sprintf("AddPrefixes(%s,%d,%d) after the same buffer held %s = %v without error; the true result is beyond 2^128", toIP(bb), n, p, toIP(ba), got), c)
+					}
+					if (err == nil) != (ferr == nil) || (err == nil && !got.Equal(fresh)) {
+						r.Violate("C20/aliasing/add-depends-on-history", fmt.Sprintf("AddPrefixes(%s,%d,%d) through a reused buffer = %v,%v; with a fresh slice %v,%v", toIP(bb), n, p, got, err, fresh, ferr), c)
+					}
+					copy(buf, toIP(bb))
+					for _, rev := range []bool{false, true} {
+						x, y := net.IP(xbuf), net.IP(buf)
+						fx, fy := toIP(xb), toIP(bb)
+						if rev {
+							x, y, fx, fy = y, x, fy, fx
+						}
+						o1, e1 := allocators.Offset(x, y, p)
+						o2, e2 := allocators.Offset(fx, fy, p)
+						if wantOff := new(big.Int).SetUint64(n); xb.Cmp(bb) != 0 && (e1 != nil || new(big.Int).SetUint64(o1).Cmp(wantOff) != 0) && wantOff.IsUint64() {
+							r.Violate("C20/aliasing/offset-depends-on-history", fmt.Sprintf("Offset(%s,%s,%d) after the buffers held other addresses = %d,%v; want %d", x, y, p, o1, e1, n), c)
+						}
+						if (e1 == nil) != (e2 == nil) || o1 != o2 {
+							r.Violate("C20/aliasing/offset-depends-on-history", fmt.Sprintf("Offset(%s,%s,%d) through reused buffers = %d,%v; with fresh slices %d,%v", x, y, p, o1, e1, o2, e2), c)
+						}
+					}
+					r.Eval("aliasing/" + pclass(p))
+				}
+			}
+		}
+	}
+}
+
 func patterns() []*big.Int {
 	h := func(s string) *big.Int { v, _ := new(big.Int).SetString(s, 16); return v }
 	return []*big.Int{
@@ -191,7 +272,7 @@ func run(r *ev.Run) {
 		dist = thoroughDistances
 		r.Rule("thorough: base patterns extended by every single-bit, 2^k-1 and (every third) two-bit pattern of 128 bits (5 700 patterns); distances extended by 2^k-1, 2^k, 2^k+1 for k = 0..65.")
 	}
-	r.Rule("complete product: p in 0..128 x 11 base bit patterns (incl. IPv4-mapped and IPv4-compatible addresses) masked to /p x 13 block distances (0,1,2,2^8,2^32-1,2^32,2^63-1,2^63,2^64-1,2^64,2^64+1,last block,last+1) x in-block offset {0,1,size-1} x both argument orders for Offset; AddPrefixes+inverse for every distance < 2^64; plus complete windows n=0..300 around the 2^64 and 2^128 carries for p in {0,1,2,62..66,126,127,128}. Reference: math/big. Class = function/p-range/outcome.")
+	r.Rule("complete product: p in 0..128 x 11 base bit patterns (incl. IPv4-mapped and IPv4-compatible addresses) masked to /p x 13 block distances (0,1,2,2^8,2^32-1,2^32,2^63-1,2^63,2^64-1,2^64,2^64+1,last block,last+1) x in-block offset {0,1,size-1} x both argument orders for Offset; AddPrefixes+inverse for every distance < 2^64; every ordered pair of base patterns through one reused argument buffer (purity: same result as with fresh slices); plus complete windows n=0..300 around the 2^64 and 2^128 carries for p in {0,1,2,62..66,126,127,128}. Reference: math/big. Class = function/p-range/outcome.")
 	r.Assume("values outside the listed bit patterns / distances are not explored; only carry/borrow/shift shapes are exhaustive")
 	seenCase := map[string]bool{}
 	for p := 0; p <= 128; p++ {
@@ -222,6 +303,7 @@ func run(r *ev.Run) {
 			}
 		}
 	}
+	aliasing(r)
 	// complete windows
 	for _, p := range []int{0, 1, 2, 62, 63, 64, 65, 66, 126, 127, 128} {
 		size := new(big.Int).Lsh(one, uint(128-p))
@@ -258,6 +340,8 @@ func replay(r *ev.Run, raw json.RawMessage) {
 	bb, _ := hex.DecodeString(c.Base)
 	base := new(big.Int).SetBytes(bb)
 	switch c.Fn {
+	case "aliasing":
+		aliasing(r)
 	case "offset", "offset-rev":
 		xb, _ := hex.DecodeString(c.X)
 		evalOffset(r, base, new(big.Int).SetBytes(xb), c.P, c.Fn == "offset-rev")
